@@ -15,7 +15,7 @@ from ..monitors import segstats, robust
 
 TITLE = "Segment statistics and bin tests match their definitions on the right bins"
 RULE = ("bin tables (1..3 chromosomes) with segmentations tiling them: 1..300 bins per segment plus segments with 0 bins (placed in a gap) and 1 bin, "
-        "tied log2 values, weights in (0,1] (a tenth exactly 1; for bintest a weight-1 bin exactly at its segment's level has no defined p and is counted out), null-coverage bins; every subset of location/spread/interval statistics, "
+        "tied log2 values, weights in (0,1] (a tenth exactly 1; for bintest a weight-1 bin exactly at its segment level takes the limit p = 1), null-coverage bins; every subset of location/spread/interval statistics, "
         "alpha in {0.001, 0.05, 0.5, 0.9}, bootstraps 10..200, smoothed on/off, skip_low; p-vectors of length 1..200 with ties, 0 and 1 for BH. "
         "Distinct by table fingerprint; non-trivial when a segment has >= 2 bins.")
 ASSUMPTIONS = [
